@@ -203,59 +203,104 @@ def oracleOne (regs : List (Bool × RegE)) (id : Int) (k : Nat) : List String ×
       if e.fail == 1 || (e.fail == 2 && k % 2 == 1) then (acc.reverse, some e.hid) else go es acc
   go (oracleOrder regs id) []
 
+/-- result of one `HandleGame` call according to the oracle: the log so far, how the call ended, the packets the
+    next call will see, and whether packets of a bundle were dropped after a failing handler (the property does not
+    say what becomes of those, so later calls are then only weakly constrained) -/
+structure OCall where
+  log : List String
+  fin : String
+  rest : List (Int × Nat)
+  dropped : Bool
+
 /-- `none` = the property does not determine the outcome of this input -/
-partial def oracleRun (regs : List (Bool × RegE)) : List (Int × Nat) → List String → Option (List String × String)
-  | [], acc => some (acc, "eof")
+partial def oracleRun (regs : List (Bool × RegE)) : List (Int × Nat) → List String → Option OCall
+  | [], acc => some ⟨acc, "eof", [], false⟩
   | (id, k) :: rest, acc =>
     if id == 0 then
       let (inner, after) := rest.span (fun p => p.1 != 0)
       match after with
-      | [] => if inner.length ≥ 4096 then none else some (acc, "eof")   -- never closed: nothing is handled
+      | [] => if inner.length ≥ 4096 then none else some ⟨acc, "eof", [], false⟩   -- never closed: nothing is handled
       | _ :: after' =>
-        if inner.length > 4096 then some (acc, "other")
+        if inner.length > 4096 then some ⟨acc, "other", rest.drop 4096, false⟩
         else if inner.length == 4096 then none                          -- exactly at the limit: not fixed by the property
         else
-          let rec many : List (Int × Nat) → List String → Option (List String × Option String)
+          let rec many : List (Int × Nat) → List String → Option (List String × Option (String × Bool))
             | [], acc => some (acc, none)
             | (i, k') :: ps, acc =>
               if i < 0 || i ≥ 124 then none else
               match oracleOne regs i k' with
-              | (l, some h) => some (acc ++ l, some s!"handler:{h}:{i}")
+              | (l, some h) => some (acc ++ l, some (s!"handler:{h}:{i}", !ps.isEmpty))
               | (l, none) => many ps (acc ++ l)
           match many inner acc with
           | none => none
-          | some (acc', some e) => some (acc', e)
+          | some (acc', some (e, dr)) => some ⟨acc', e, after', dr⟩
           | some (acc', none) => oracleRun regs after' acc'
     else if id < 0 || id ≥ 124 then none
     else
       match oracleOne regs id k with
-      | (l, some h) => some (acc ++ l, s!"handler:{h}:{id}")
+      | (l, some h) => some ⟨acc ++ l, s!"handler:{h}:{id}", rest, false⟩
       | (l, none) => oracleRun regs rest (acc ++ l)
+
+/-- the caller's loop: up to `n` calls, again only after a handler's error. Returns the log, the ends of the calls the
+    oracle determines, and whether it stopped early because bundle packets had been dropped (`weak`). -/
+partial def oracleSession (regs : List (Bool × RegE)) : Nat → List (Int × Nat) → List String → List String →
+    Option (List String × List String × Bool)
+  | 0, _, acc, ends => some (acc, ends, false)
+  | n + 1, ps, acc, ends =>
+    match oracleRun regs ps acc with
+    | none => none
+    | some c =>
+      let ends := ends ++ [c.fin]
+      if !c.fin.startsWith "handler:" || n == 0 then some (c.log, ends, false)
+      else if c.dropped then some (c.log, ends, true)
+      else oracleSession regs n c.rest c.log ends
+
+def isPrefixOf {α} [BEq α] : List α → List α → Bool
+  | [], _ => true
+  | _ :: _, [] => false
+  | a :: as, b :: bs => a == b && isPrefixOf as bs
+
+def entryIndex (e : String) : Int := ((e.splitOn "@").getLast?.bind String.toInt?).getD (-1)
 
 def disp (args : List String) (obs : String) : Verdict :=
   let calls := (splitList (getKV args "regs") ";").map parseCall
   let ids := (splitList (getKV args "pkts") ",").filterMap String.toInt?
+  let ncalls := max 1 (getInt args "calls").toNat
   let pkts : List Dispatch.Pkt := ids.zipIdx.map fun (id, k) => { id := id, data := indexBytes k }
   let regCalls : List (Dispatch.RegCall Log Nat) := calls.map fun (g, es) =>
     if g then .generic (es.map mkHandler) else .listener (es.map mkHandler)
   let model :=
     match Dispatch.register (Dispatch.newEvents guardLen) regCalls with
     | .ok ev =>
-      let (log, e) := Dispatch.handleGame ev pkts []
-      renderDisp log (endStr e)
+      let (log, es) := Dispatch.resume ev ncalls pkts []
+      renderDisp log ("/".intercalate (es.map endStr))
     | _ => "panic-reg"
   let flat : List (Bool × RegE) := calls.flatMap fun (g, es) => es.map fun e => (g, e)
   let invalidReg := flat.any fun (g, e) => !g && (e.id < 0 || e.id ≥ 124)
+  let otoks := obs.splitOn " "
+  let oEnds := (getKV otoks "end").splitOn "/"
   let spec : Option String :=
     if obs == "hang" || obs == "nojoin" then some ("dispatch run: " ++ obs)
     else if invalidReg then none                -- AddListener documents a panic for an invalid id
     else if obs == "panic-reg" then some "registration panicked on valid ids"
-    else if (getKV (obs.splitOn " ") "end") == "panic" then some "dispatch panicked on a received packet"
-    else match oracleRun flat (ids.zipIdx) [] with
+    else if oEnds.contains "panic" then some "dispatch panicked on a received packet"
+    else match oracleSession flat ncalls (ids.zipIdx) [] [] with
       | none => none
-      | some (log, e) =>
-        let want := s!"log={joinList log} end={e}"
+      | some (log, ends, false) =>
+        let want := s!"log={joinList log} end={"/".intercalate ends}"
         if obs == want then none else some s!"dispatch order: expected {want}"
+      | some (log, ends, true) =>
+        -- packets of a bundle were dropped after a failing handler: the calls so far are determined; afterwards every
+        -- dispatched packet must be a LATER one than the failing packet, in arrival order (nothing is handled twice)
+        let oLog := splitList (getKV otoks "log") ","
+        let kfail := (log.getLast?.map entryIndex).getD (-1)
+        let later := (oLog.drop log.length).map entryIndex
+        let sorted := (later.zip (later.drop 1)).all fun (a, b) => a ≤ b
+        if !(isPrefixOf log oLog && isPrefixOf ends oEnds) then
+          some s!"dispatch order: expected to start with log={joinList log} end={"/".intercalate ends}"
+        else if later.any (· ≤ kfail) then some s!"a packet at or before the failing packet {kfail} was dispatched again after the error"
+        else if !sorted then some "packets dispatched out of arrival order after a resumed HandleGame"
+        else none
   { model, spec }
 
 /-! ## gate.status -/
